@@ -122,6 +122,14 @@ class Exec(ExprMixin, CallMixin, BuiltinMixin, StmtMixin):
             self.ctx.axioms.append(z3.ForAll([s], ass(app) == s, patterns=[app]))
         return VPy(c)
 
+    def prim_same_shape(self, args, path, node):
+        N, D = self.ctx.sorts.Node, self.ctx.sorts.Data
+        n = self.coerce(args[0], NODE).t
+        op = self.coerce(args[1], DATA).t
+        l, r = self.coerce(args[2], DATA).t, self.coerce(args[3], DATA).t
+        leaf = lambda x, d: z3.And(x != N.NNil, N.data(x) == d, N.left(x) == N.NNil, N.right(x) == N.NNil)
+        return VBool(z3.And(n != N.NNil, N.data(n) == op, leaf(N.left(n), l), leaf(N.right(n), r)))
+
     def prim_is_text(self, args, path, node):
         v = args[0]
         if isinstance(v, VStr):
